@@ -940,7 +940,8 @@ class Explorer:
         status = 'none'
         for B in (bounds or self.refute_bound):
             try:
-                status, model = bounded_model(formulas, B, timeout_ms or self.refute_timeout_ms,
+                from . import ufmaps   # ufmaps: finite key universe for counter-model search (option refute_universe)
+                status, model = bounded_model(ufmaps.finite_universe(c, formulas), B, timeout_ms or self.refute_timeout_ms,
                                               extra=seqs.len_bounds(P, B))
             except Exception as e:
                 return None, f'error: {e}'
